@@ -514,7 +514,7 @@ static void do_receive_polled(vf_rng *r)
 		inv_recv("mpt_stream_poll");
 		if (pending && !unread) {
 			vf_count("state:poll-asked-with-waiting-message-and-no-input", 1);
-			if (empty_pending) vf_count(C.hung_up ? "state:poll-asked-with-waiting-empty-message-after-hangup" : "state:poll-asked-with-waiting-empty-message", 1);
+			if (empty_pending) vf_count(C.hung_up ? "state:poll-waiting-empty-message-after-hangup" : "state:poll-waiting-empty-message", 1);
 		}
 		if (ret <= 0) {
 			/* The look-ahead of mpt_stream_dispatch() may have stopped on MissingBuffer; its result is not handed on
